@@ -221,6 +221,11 @@ impl RpuDataMapping {
             let curve = &self.curves[cmp];
             let num_pieces = (curve.num_pivots_minus2 + 1) as usize;
 
+            ensure!(
+                !(curve.polynomial.is_some() && curve.mmr.is_some()),
+                "Mixed polynomial and MMR pieces in a component are not supported"
+            );
+
             for i in 0..num_pieces {
                 writer.write_ue(&(curve.mapping_idc as u64))?;
 
